@@ -116,8 +116,20 @@ def modulo(left: float | int, right: float | int) -> float | int:
     try:
         if isinstance(left, int) and isinstance(right, int):
             return left % right
+        dividend = decimal.Decimal(str(left))
         divisor = decimal.Decimal(str(right))
-        remainder = decimal.Decimal(str(left)) % divisor
+        with decimal.localcontext() as ctx:
+            if dividend.is_finite() and divisor.is_finite() and divisor:
+                # The whole number of times the divisor goes in to the dividend must
+                # fit in the context's precision, 1e30 modulo 3 for example.
+                ctx.prec = max(
+                    ctx.prec,
+                    abs(dividend.adjusted() - divisor.adjusted())
+                    + len(dividend.as_tuple().digits)
+                    + len(divisor.as_tuple().digits)
+                    + 4,
+                )
+            remainder = dividend % divisor
         # Decimal's remainder takes the sign of the dividend. Integers (above) take
         # the sign of the divisor, and -7.0 is the same number as -7.
         if remainder and (remainder < 0) != (divisor < 0):
